@@ -8,7 +8,10 @@ class TimePattern(i_lib.TimePattern):
     MINUTES_60 = set(range(0, 60))
     # What may follow: white space, the end of the line, a closing bracket,
     # brace or parenthesis, or the start of a comment.
-    REGEX_SPEC = r'(\*|\*\d|\d\*|\d\d?):(\d\d|\d\*|\*\d|\*)(?=(\s|$|[\]})#]))'
+    # The digits are 0 to 9 only: "\d" would also take the digits of other scripts,
+    # which the matching below knows nothing about.
+    REGEX_SPEC = (r'(\*|\*[0-9]|[0-9]\*|[0-9][0-9]?):'
+                  r'([0-9][0-9]|[0-9]\*|\*[0-9]|\*)(?=(\s|$|[\]})#]))')
     REGEX = re.compile(REGEX_SPEC)
 
     def __init__(self, hours, minutes):
